@@ -15,18 +15,79 @@ EXTRA_TARGETS = [
     dict(cpu="16c64", hdr=0x70, segs={"code": (1, 2)}, max_addr={"code": 0x7ff}, style="pic"),
 ]
 
+# byte order class: processors whose 16-bit data the manual / the data books define as high byte first resp. low byte first, with the
+# list unit of their back end (ListGrans[SegCode]) and the TurnWords value their SwitchTo_* assigns.  `ops` = (byte data, reservation,
+# 16-bit data) directives; `even`: the back end pads byte data to whole words (PADDING in its default state), so only whole words are
+# placed and word data stands at even addresses.
+ORDER_TARGETS = [
+    dict(cpu="h8/300", hdr=0x68, segs={"code": (1, 1)}, max_addr={"code": 0xffff}, style="gen", ops=("dc.b", "ds.b", "dc.w"), big=1, turn=1, lg=2),
+    dict(cpu="h8/300h", hdr=0x68, segs={"code": (1, 1)}, max_addr={"code": 0xffffff}, style="gen", ops=("dc.b", "ds.b", "dc.w"), big=1, turn=1, lg=2),
+    dict(cpu="hd6475328", hdr=0x69, segs={"code": (1, 1)}, max_addr={"code": 0xffff}, style="gen", ops=("dc.b", "ds.b", "dc.w"), big=1, turn=1, lg=1),
+    dict(cpu="6809", hdr=0x63, segs={"code": (1, 1)}, max_addr={"code": 0xffff}, style="gen", ops=("fcb", "rmb", "fdb"), big=1, turn=0, lg=1),
+    dict(cpu="6811", hdr=0x61, segs={"code": (1, 1)}, max_addr={"code": 0xffff}, style="gen", ops=("fcb", "rmb", "fdb"), big=1, turn=0, lg=1),
+    dict(cpu="tms9900", hdr=0x48, segs={"code": (1, 1)}, max_addr={"code": 0xffff}, style="gen", ops=("byte", "bss", "word"), big=1, turn=1, lg=2, even=1),
+    dict(cpu="msp430", hdr=0x4a, segs={"code": (1, 1)}, max_addr={"code": 0xffff}, style="gen", ops=("byte", "bss", "word"), big=0, turn=0, lg=2, even=1),
+    dict(cpu="sh7000", hdr=0x6c, segs={"code": (1, 1)}, max_addr={"code": 0xffffff}, style="gen", ops=("dc.b", "ds.b", "dc.w"), big=1, turn=1, lg=2),
+    dict(cpu="xgate", hdr=0x04, segs={"code": (1, 1)}, max_addr={"code": 0xffff}, style="gen", ops=("fcb", "rmb", "fdb"), big=1, turn=1, lg=2),
+    dict(cpu="z8001", hdr=0x34, segs={"code": (1, 1)}, max_addr={"code": 0xffff}, style="gen", ops=("db", "ds", "dw"), big=1, turn=1, lg=2),
+    dict(cpu="1802", hdr=0x38, segs={"code": (1, 1)}, max_addr={"code": 0xffff}, style="gen", ops=("db", "ds", "dw"), big=1, turn=0, lg=1),
+]
+
+# the same facts for the processors of c04.TARGETS / EXTRA_TARGETS: cpu -> (16-bit data directive, big, turn, list unit of CODE, largest value)
+ORDER_OF = {
+    "8051": ("dw", 0, 0, 1, 0xffff), "8052": ("dw", 0, 0, 1, 0xffff), "z80": ("dw", 0, 0, 1, 0xffff), "z180": ("dw", 0, 0, 1, 0xffff),
+    "6502": ("adr", 0, 0, 1, 0xffff), "65c02": ("adr", 0, 0, 1, 0xffff), "8086": ("dw", 0, 0, 1, 0xffff),
+    "68000": ("dc.w", 1, 1, 2, 0xffff),
+    # word-addressed targets: one datum per address unit, low byte first in the code file
+    "16c84": ("data", 0, 0, 2, 0x3fff), "16c64": ("data", 0, 0, 2, 0x3fff), "320c25": ("word", 0, 0, 2, 0xffff), "atmega8": ("data", 0, 0, 2, 0xffff),
+    "320c30": (None, 0, 0, 4, 0),
+}
+
+
+def order_of(t):
+    """(16-bit data directive or None, big, turn, list unit of CODE, largest value, pads to whole words)"""
+    if "ops" in t:
+        return t["ops"][2], t["big"], t["turn"], t["lg"], 0xffff, bool(t.get("even"))
+    wop, big, turn, lg, wmax = ORDER_OF[t["cpu"]]
+    return wop, big, turn, lg, wmax, t["style"] == "moto68k"
+
+
+def params_requests(targets):
+    """request lines of driver mode `c04p` (one per processor the generator knows) and the processors they are about"""
+    tgts = list(targets) + EXTRA_TARGETS + ORDER_TARGETS
+    return ["%s %s" % (t["cpu"].upper(), cpu_token(i + 1, t)[2:]) for i, t in enumerate(tgts)], tgts
+
 
 def cpu_token(tid, tgt):
-    return "C:%d,%d,%s" % (tid, tgt["hdr"], "/".join("%d=%d" % sg for sg in sorted(tgt["segs"].values())))
+    _wop, big, turn, lg, _wmax, _even = order_of(tgt)
+    segs = "/".join("%d=%d=%d" % (sid, g, lg if name == "code" else g) for name, (sid, g) in sorted(tgt["segs"].items(), key=lambda kv: kv[1]))
+    return "C:%d,%d,%s,%s%s" % (tid, tgt["hdr"], segs, "B" if big else "L", "T" if turn else "N")
 
 
 def gen_ctl(rng, targets, data_stmt, reserve_stmt, tier, shape=None):
     """returns (source, request tail, stats, [])"""
-    tgts = list(targets) + EXTRA_TARGETS
+    tgts = list(targets) + EXTRA_TARGETS + ORDER_TARGETS
+    data_stmt0, reserve_stmt0 = data_stmt, reserve_stmt
+
+    def data_stmt(rng_, t, g, hint, budget):
+        if "ops" not in t:
+            return data_stmt0(rng_, t, g, hint, budget)
+        n = max(1, min(hint, budget, 40))
+        if t.get("even"):
+            n += n & 1
+        vals = [rng_.randrange(256) for _ in range(n)]
+        return "\t%s %s" % (t["ops"][0], ",".join(map(str, vals))), bytes(vals)
+
+    def reserve_stmt(t, k):
+        if "ops" not in t:
+            return reserve_stmt0(t, k)
+        return "\t%s %d" % (t["ops"][1], k)
     lines, toks = [], []
     st = dict(emits=0, reserves=0, orgs=0, segsw=0, cpusw=0, bigstmt=0, bytes=0, ctl_programs=1, ctl_saves=0, ctl_restores=0,
               ctl_restore_cpu=0, ctl_restore_seg=0, ctl_restore_both=0, ctl_restore_none=0, ctl_restore_gran=0,
-              ctl_data_behind_restore=0, ctl_depth_max=0, ctl_org_same=0, ctl_segment_same=0, ctl_cpu_same=0)
+              ctl_data_behind_restore=0, ctl_depth_max=0, ctl_org_same=0, ctl_segment_same=0, ctl_cpu_same=0,
+              ord_words=0, ord_values=0, ord_behind_cpu=0, ord_behind_restore=0, ord_big=0, ord_little=0, ord_wordlisted=0, ord_bytelisted=0,
+              ord_sw_BL=0, ord_sw_LB=0, ord_sw_BB=0, ord_sw_LL=0, ord_sw_turn_changes=0)
     pcs = {1: 0}              # segment id -> counter (address units) of the spaces selected so far
     cur = dict(t=None, tid=0, seg="code")
     stack = []
@@ -43,14 +104,56 @@ def gen_ctl(rng, targets, data_stmt, reserve_stmt, tier, shape=None):
     def lim():
         return cur["t"]["max_addr"][cur["seg"]]
 
-    def do_cpu(tid):
+    def note_switch(t):
+        if cur["t"] is not None and cur["t"] is not t:
+            o, n = order_of(cur["t"]), order_of(t)
+            st["ord_sw_" + "LB"[o[1]] + "LB"[n[1]]] += 1
+            if o[2] != n[2]:
+                st["ord_sw_turn_changes"] += 1
+
+    def do_words(direct=False):
+        """a statement placing 16-bit data; what bytes that means is decided in Lean (MODEL: word buffer / TurnWords / DreheCodes,
+        SPEC: byte order of the processor in effect)"""
+        t = cur["t"]
+        wop, big, _turn, lg, wmax, even = order_of(t)
+        if wop is None or cur["seg"] != "code":
+            return False
+        g = gran()
+        n = rng.choice([1, 1, 2, 3, 4, 8]) if rng.random() < 0.9 else rng.choice([100, 127, 128, 129])
+        units = n * 2 // g
+        if even and g == 1 and pc() % 2 == 1:
+            if direct:
+                return False
+            do_org(pc() + 1)
+        if pc() + units + 2 > lim():
+            if direct:
+                return False
+            do_org(2 * rng.randrange(0, max(1, min(lim() // 4, 0x40))))
+            if pc() + units + 2 > lim():
+                return False
+        vals = [rng.choice([0x1234, 0xff00, 0x00ff, 0x8001, 0x0100, 0x0001]) & wmax if rng.random() < 0.3 else rng.randrange(wmax + 1) for _ in range(n)]
+        lines.append("\t%s %s" % (wop, ",".join(map(str, vals))))
+        toks.append("W:" + ",".join(map(str, vals)))
+        pcs[sid()] = pc() + units
+        st["emits"] += 1
+        st["bytes"] += 2 * n
+        st["ord_words"] += 1
+        st["ord_values"] += n
+        st["ord_big" if big else "ord_little"] += 1
+        st["ord_wordlisted" if lg == 2 else "ord_bytelisted"] += 1
+        return True
+
+    def do_cpu(tid, direct_words=True):
         t = tgts[tid]
         if cur["t"] is t:
             st["ctl_cpu_same"] += 1
+        note_switch(t)
         cur.update(t=t, tid=tid, seg="code")
         lines.append("\tcpu %s" % t["cpu"])
         toks.append(cpu_token(tid + 1, t))
         st["cpusw"] += 1
+        if direct_words and rng.random() < 0.5 and do_words(direct=True):
+            st["ord_behind_cpu"] += 1
 
     def do_org(a=None):
         if a is None:
@@ -65,7 +168,7 @@ def gen_ctl(rng, targets, data_stmt, reserve_stmt, tier, shape=None):
     def do_data(direct=False):
         g = gran()
         units = rng.choice([1, 1, 2, 3, 4, 8, 16]) if rng.random() < 0.9 else rng.choice([100, 255, 256, 300])
-        if cur["t"]["style"] == "moto68k":
+        if cur["t"]["style"] == "moto68k" or cur["t"].get("even"):
             units += units & 1          # PADDING is in its default state after a processor change: whole words only
         if pc() + units + 2 > lim():
             if direct:
@@ -75,7 +178,7 @@ def gen_ctl(rng, targets, data_stmt, reserve_stmt, tier, shape=None):
                 units = 2
         for _ in range(20):
             src, bs = data_stmt(rng, cur["t"], g, units * g, units * g)
-            if cur["t"]["style"] != "moto68k" or len(bs) % 2 == 0:
+            if (cur["t"]["style"] != "moto68k" and not cur["t"].get("even")) or len(bs) % 2 == 0:
                 break
         else:
             return False
@@ -101,19 +204,31 @@ def gen_ctl(rng, targets, data_stmt, reserve_stmt, tier, shape=None):
         ds = t["segs"][seg][0] != sid()
         g0 = gran()
         st["ctl_restore_" + ("both" if dc and ds else "cpu" if dc else "seg" if ds else "none")] += 1
+        note_switch(t)
         cur.update(t=t, tid=tid, seg=seg)
         if gran() != g0:
             st["ctl_restore_gran"] += 1
         lines.append("\trestore")
         toks.append("T")
         st["ctl_restores"] += 1
-        if rng.random() < 0.8 and do_data(direct=True):
+        if rng.random() < 0.4 and do_words(direct=True):
+            st["ord_behind_restore"] += 1
+            st["ctl_data_behind_restore"] += 1
+        elif rng.random() < 0.8 and do_data(direct=True):
             st["ctl_data_behind_restore"] += 1
 
     multi = [i for i, t in enumerate(tgts) if len(t["segs"]) > 1]
 
+    bigs = [i for i, t in enumerate(tgts) if order_of(t)[1]]
+    littles = [i for i, t in enumerate(tgts) if not order_of(t)[1] and order_of(t)[0]]
+
     def pick_tid():
         # targets with several address spaces (of equal or different address units) often enough for RESTORE to change the space
+        if shape == "order":
+            # alternate between the byte orders more often than chance would
+            was_big = cur["t"] is not None and order_of(cur["t"])[1]
+            r = rng.random()
+            return rng.choice(littles if was_big else bigs) if r < 0.6 else rng.randrange(len(tgts))
         return rng.choice(multi) if rng.random() < 0.35 else rng.randrange(len(tgts))
 
     def do_segment(other=False):
@@ -172,11 +287,39 @@ def gen_ctl(rng, targets, data_stmt, reserve_stmt, tier, shape=None):
             for _k in range(rng.randrange(0, 3)):
                 do_data()
             do_restore()
+    elif shape == "order":
+        # processors of both byte orders, word- and byte-listed, one after the other (by CPU or by SAVE / CPU / RESTORE), 16-bit
+        # data directly behind each change
+        for _ in range(rng.randrange(2, 9)):
+            r = rng.random()
+            if r < 0.6:
+                do_cpu(pick_tid())
+            elif r < 0.8 or len(stack) >= 4:
+                do_save()
+                do_cpu(pick_tid())
+                if rng.random() < 0.5:
+                    do_data()
+                do_restore()
+            else:
+                do_save()
+                do_cpu(pick_tid())
+            for _k in range(rng.randrange(0, 3)):
+                r = rng.random()
+                if r < 0.5:
+                    do_words()
+                elif r < 0.8:
+                    do_data()
+                elif r < 0.9:
+                    do_org()
+                else:
+                    do_res()
     else:
         nst = rng.randrange(4, 40 if tier == "quick" else 120)
         for _ in range(nst):
             r = rng.random()
-            if r < 0.36:
+            if r < 0.12:
+                do_words()
+            elif r < 0.36:
                 do_data()
             elif r < 0.48:
                 if len(stack) < 5:
